@@ -69,7 +69,7 @@ def run(ck):
     traces = [t for t in traces if t["res"]]
     ck.sample({"vals": traces[len(traces) // 2]["vals"], "k": traces[len(traces) // 2]["k"], "first_events": traces[len(traces) // 2]["res"][:2]})
     ck.sample({"vals": traces[-1]["vals"], "k": traces[-1]["k"], "first_events": traces[-1]["res"][:1]})
-    fails = ck.judge("JPart", traces, {"C01"}, what="C01 partition validity")
+    fails = ck.judge("JPart", traces, {"C01"}, what="C01 partition validity", chunk=2500)
     ck.classify(fails, ctx_of)
     ck.assumptions += ["names<->ids bijection and value matching for plain lists are done by the harness (DESIGN 4.3)",
                        "TLC / SANY / CommunityModules", "totals < 2^31 (TLC integers); magnitudes up to 2^53 only in the magnitude tier"]
